@@ -349,6 +349,7 @@ static void rtp_program(Rng& r) {
     std::string prog = "lists RTP:"; describe_case(prog);
     std::vector<u32> pool; for (u32 n = 1 + r.below(3); pool.size() < n;) pool.push_back(r.chance(1, 3) ? (u32)r.edgy(32) : r.chance(1, 2) ? r.below(4) : (u32)r.next());
     std::vector<u32> cs, ex; bool dup_seen = false; const u32 steps = 1 + r.below(14);
+    if (r.chance(1, 6)) for (u32 n = 13 + r.below(3); cs.size() < n;) { u32 v = (u32)r.next(); o.add_csrc_id(v); cs.push_back(v); }      // start close to the 15-identifier limit
     auto words = [](const std::vector<u32>& v) { std::string s = "["; for (size_t i = 0; i < v.size(); ++i) { if (i) s += ' '; char b[16]; snprintf(b, sizeof b, "%08x", v[i]); s += b; } return s + "]"; };
     auto swapped = [](const std::vector<u32>& v) { std::vector<u32> o; for (u32 x : v) o.push_back(be32(x)); return o; };
     for (u32 s = 0; s < steps; ++s) {
@@ -359,10 +360,15 @@ static void rtp_program(Rng& r) {
         char vb[16]; snprintf(vb, sizeof vb, "%08x", v);
         try {
             if (op < 4) {
-                if (on_csrc && cs.size() >= 15) { cnt("lists-skip:RTP:CC-field-holds-at-most-15"); continue; }
+                if (on_csrc && cs.size() >= 15) {      // the 4-bit CC field holds at most 15: a 16th add must be refused AND leave the object as it was (the checks below run on the unchanged shadow)
+                    prog += " +" + L + ":" + vb + "(16th)"; describe_case(prog); bool refused = false;
+                    try { o.add_csrc_id(v); } catch (const std::exception&) { refused = true; }
+                    if (!refused) { violation("add-beyond-limit/RTP/csrc/accepted", "add_csrc_id accepted a 16th identifier (CC is a 4-bit field) :: " + prog); return; }
+                    cnt("lists:RTP:add-refused-at-limit"); opname = "refused-add"; }
+                else {
                 prog += " +" + L + ":" + vb; describe_case(prog);
                 if (on_csrc) o.add_csrc_id(v); else o.add_extension_data(v);
-                l.push_back(v); cnt("lists:RTP:add"); if (std::count(l.begin(), l.end(), v) >= 2) { dup_seen = true; cnt("lists:RTP:add-duplicate-code"); }
+                l.push_back(v); cnt("lists:RTP:add"); if (std::count(l.begin(), l.end(), v) >= 2) { dup_seen = true; cnt("lists:RTP:add-duplicate-code"); } }
             } else if (op < 6) {
                 prog += " ?" + L + ":" + vb; describe_case(prog);
                 bool res = on_csrc ? o.search_csrc_id(v) : o.search_extension_data(v);
